@@ -27,7 +27,7 @@ Your task: make a realistic change to the non-test source code (the kind of regr
 Required steps and deliverables:
 1. Read the relevant code, choose the change, apply it in the worktree (do not commit).
 2. Run `go build ./... && go vet ./... >/dev/null 2>&1; go test -vet=off -count=1 ./...` for the packages that could be affected AND the root package `.` (the full suite takes minutes; `cmd/nebula-cert` is slow and may be skipped unless you touched cert/). All must pass with your change. Say exactly what you ran.
-3. Write a demonstration: a NEW Go test file (in-package, any name like zz_seed_demo_test.go) or small program that FAILS with your change and PASSES without it (verify both: use `git stash` / `git diff > patch; git checkout` to flip). The demo may use internal APIs; it should exercise the specific circumstance that makes the breakage manifest.
+3. Write a demonstration: a NEW Go test file (in-package, any name like zz_seed_demo_test.go) or small program that FAILS with your change and PASSES without it (verify both; flip with `git diff -- <files> > .scratch/patch.diff; git apply -R .scratch/patch.diff` and `git apply .scratch/patch.diff`; NEVER use `git stash`: the stash is shared by all worktrees of the repository and other engineers are working in sibling worktrees). The demo may use internal APIs; it should exercise the specific circumstance that makes the breakage manifest.
 4. Create directory {wt}/SEED containing: patch.diff (`git diff` of the source change only, NOT including the demo), the demo file (copy), and meta.json with keys: property ("{pid}"), summary (what was changed), needs (what specific circumstance is needed to manifest), files_changed, commands_run (what you ran and the results), demo_cmd (exact command to run the demo from the worktree root).
 5. Leave the worktree with your source change applied and the demo file in place.
 Final message: a short report (change, why the existing tests pass, how the demo shows the breakage).""")
